@@ -608,7 +608,7 @@ def gen_specs(ctx):
     rng = ctx.rng(31)
     specs = [c["spec"] for c in ctx.corpus() if "spec" in c]
     specs += fixed_specs(ctx.quick)
-    specs += random_specs(rng, 14 if ctx.quick else 120, 400 if ctx.quick else 1500)
+    specs += random_specs(rng, 8 if ctx.quick else 120, 300 if ctx.quick else 1500)
     return specs
 
 
@@ -634,10 +634,15 @@ class C31(C.Check):
 
     def translate(self, ctx):
         from tr import c31_index
+        self.tie = "translator"
         try:
             text = c31_index.translate(os.path.join(ctx.repo, "nifty/re/multi_grid/grid.py"))
         except c31_index.Unsupported as e:
-            raise C.TranslationError(str(e))
+            # DESIGN.md 4.2: the source was refactored into syntax the translator does not know.
+            # Fall back to the committed golden formulas; the exhaustive correspondence below then
+            # decides whether they still describe the code (tie: correspondence(golden)).
+            text = open(os.path.join(C.HOME, "tr", "c31_index.golden.v")).read()
+            self.tie = "correspondence(golden); translator failed closed: %s" % (str(e)[:300],)
         C.write_if_changed(os.path.join(C.COQ, "C31", "Gen_Index.v"), text)
 
     def correspondence(self, ctx, res):
@@ -672,12 +677,15 @@ class C31(C.Check):
             "evaluations": len(checks), "distinct_nontrivial": len(nontrivial),
             "index_probes": n_idx,
             "rule": "one evaluation = one map (axes/children/parent/neighbourhood/coord/coord2index/volume, flat serial+nest dec/enc/children/parent/neighbourhood) on ALL voxels of one level of one grid (sampled above %d voxels) plus out-of-range probes; non-trivial grid = depth >= 1 and more than one voxel; distinct by description" % CAP_ALL,
-            "samples": [{"spec": o["spec"], "level1_shape": o["levels"][-1]["shape"]} for o in self.obs[40:43]],
+            "samples": [{"spec": o["spec"], "finest_shape": o["levels"][-1]["shape"]} for o in self.obs[len(self.obs) // 2:len(self.obs) // 2 + 3]],
             "input_distribution": dist,
             "exhaustive_levels": sum(1 for o in self.obs for lv in o["levels"] if lv["exhaustive"]),
             "sampled_levels": sum(1 for o in self.obs for lv in o["levels"] if not lv["exhaustive"]),
             "disagreements": len(bad),
+            "tie": getattr(self, "tie", "translator"),
         })
+        if getattr(self, "tie", "translator") != "translator":
+            res.notes.append(self.tie)
         return hints
 
     def oracle(self, ctx, res, hints, budget):
